@@ -123,6 +123,78 @@ def check_solution(res, o, form, label, exact=True):
     return n
 
 
+def model_heuristic(drv, o, form, high, choices):
+    """the Lean model's make_feasible on the real object's current instance state"""
+    inst = FU.inst_tokens(o, form)
+    if form == "path":
+        rep = drv.ask(f"path.heur {inst} {fs(high)} {len(choices)} {' '.join(map(str, choices))}")
+    else:
+        rep = drv.ask(f"{form}.heur {inst} {fs(high)}")
+    head, groups = core.split_reply(rep)
+    if head != "ok":
+        return head, None
+    g = MU.parse_graph(MU.Toks(groups[0]))
+    out = dict(g=g, sol=[Fraction(t) for t in groups[-1][1:]])
+    if form == "seq":
+        out["V"] = int(groups[1][0])
+        out["vcost"] = [Fraction(t) for t in groups[1][3:]]
+    if form == "path":
+        tk = MU.Toks(groups[1])
+        out["pool"] = tk.lst(lambda: tk.lst(tk.nat))
+        out["costs"] = [Fraction(t) for t in groups[2][1:]]
+    return "ok", out
+
+
+def correspond_heuristic(res, drv, case, form, rnd_label):
+    """run the real heuristic (path: with a scripted sampler) and the model from the same state; compare outcome and resulting state"""
+    import random
+    o, _ = FU.build_form(case, with_heur=False)
+    high = Fraction(case["heur"])
+    rnd = random.Random(case.get("seed", 0))
+    choices = [rnd.randrange(6) for _ in range(12)]
+    for invocation in range(2 if case.get("twice") else 1):
+        st, m = model_heuristic(drv, o, form, high, choices)
+        restore = None
+        if form == "path":
+            from vrpqubo.routing_problem.formulations import path_based_rp as pbm
+            restore = pbm.get_sampled_key
+            counter = [0]
+
+            def scripted(key_val, explore):
+                assert key_val, "Dictionary to sample is empty"
+                keys = list(key_val.keys())
+                k = keys[choices[counter[0] % len(choices)] % len(keys)]
+                counter[0] += 1
+                return k, min(key_val, key=key_val.get)
+            pbm.get_sampled_key = scripted
+        try:
+            o.make_feasible(float(high))
+            impl = "ok"
+        except Exception as e:  # noqa
+            impl = core.err_kind(e)
+        finally:
+            if restore is not None:
+                pbm.get_sampled_key = restore
+        if impl != st:
+            res.disagree(f"{form} make_feasible outcome (invocation {invocation + 1})", impl, st)
+            return
+        if impl != "ok":
+            return
+        g = VU.graph_of(o)
+        if (g["nodes"], g["arcs"]) != (m["g"]["nodes"], m["g"]["arcs"]):
+            a, b = g["arcs"], m["g"]["arcs"]
+            res.disagree(f"{form} graph after the heuristic", ([x for x in a if x not in b][:3], [n for n in g["nodes"] if n not in m["g"]["nodes"]][:2]),
+                         ([x for x in b if x not in a][:3], [n for n in m["g"]["nodes"] if n not in g["nodes"]][:2]))
+            return
+        sol = [F(v) for v in np.asarray(o.feasible_solution).ravel()]
+        if sol != m["sol"]:
+            res.disagree(f"{form} stored solution", sol, m["sol"])
+        if form == "seq" and (int(o.max_vehicles), [F(c) for c in o.vehicle_cost]) != (m["V"], m["vcost"]):
+            res.disagree("seq vehicles after the heuristic", (int(o.max_vehicles), [F(c) for c in o.vehicle_cost]), (m["V"], m["vcost"]))
+        if form == "path" and ([[int(i) for i in r] for r in o.routes], [F(c) for c in o.route_costs]) != (m["pool"], m["costs"]):
+            res.disagree("path pool after the heuristic", [[int(i) for i in r] for r in o.routes], m["pool"])
+
+
 def preconditions(case, o, form):
     """documented preconditions under which path / sequence heuristics must succeed"""
     g = VU.graph_of(o)
@@ -208,4 +280,8 @@ def run_case(case, drv):
             break
     res.features.append(f"outcome:{outcome}")
     res.nontrivial = outcome == "ok" and bool(n and n >= 2)
+    # correspondence: the operational Lean model of the heuristic against the real one, from the same instance state
+    g0 = VU.graph_of(o)
+    if g0["cap"] is not None and g0["init"] is not None:
+        correspond_heuristic(res, drv, case, form, label)
     return res
